@@ -568,7 +568,27 @@ def r11_7(chk, so):
     # every return path
     tstores = [e for e in dv.events if e.kind in ("store", "aug") and e.target.key().startswith(("<translation@", "translation[", "$translation"))
                and e.target.as_atom() and e.target.as_atom()[0] == "sub"]
+    def _alternatives(t: P):
+        """leaf alternatives of a term built from conditional expressions (helper bodies expanded into the function arrive like this)"""
+        ites = find_atoms(t, lambda a: a[0] == "ite")
+        if not ites:
+            return [t]
+        a = ites[0]
+        return _alternatives(t.subs({a: a[2]})) + _alternatives(t.subs({a: a[3]}))
+
+    def _strips(a):
+        return a[0] == "call" and call_name(a) in (".lstrip", ".strip", ".replace") and a[2] and "-" in (string_value(a[2][0]) or "")
     for e in tstores:
+        # the same discipline when the parser's body is part of this function (inline code, or a new helper expanded into it)
+        if find_atoms(e.value, _strips):
+            bad = []
+            for alt in _alternatives(e.value):
+                k = alt.key()
+                if find_atoms(alt, _strips) and not (".count('-')" in k or ".startswith('-')" in k):
+                    bad.append(str(alt)[:100])
+            chk.ob("R11.7", SO, "decode_symm_str", "a numeric term keeps its sign: when the parser strips leading signs from the text, every path "
+                   "multiplies the sign back in", not bad, node=e.node, fingerprint="term-sign:inline",
+                   expected="sign * value on every path (or an unstripped Fraction(text))", found=bad[:2])
         helpers = [a for a in find_atoms(e.value, lambda a: a[0] == "call" and isinstance(a[1], P) and (a[1].as_atom() or ("",))[0] == "name"
                                          and a[1].as_atom()[1] in so.funcs)]
         for h in helpers:
